@@ -611,6 +611,8 @@ def run(rep):
     from pgv.replayers import c14 as R14
     for res in R14.da_exponent_cases(rep.seed, thorough=rep.tier == 'thorough'):
         rep.add_bounded(f"{P}/bounded.{res['name']}", res['ok'], res['detail'], replay={'kind': 'c14.da_case', 'name': res['name'], 'seed': rep.seed})
+    for res in R14.verbose_entry_cases():
+        rep.add_bounded(f"{P}/bounded.{res['name']}", res['ok'], res['detail'], replay={'kind': 'c14.verbose', 'name': res['name']})
     for res in R14.alpha_s_self_cases():
         rep.add_bounded(f"{P}/bounded.{res['name']}", res['ok'], res['detail'], replay={'kind': 'c14.alpha_self', 'name': res['name']})
     for res in R14.entry_adsorbate_cases():
